@@ -27,6 +27,7 @@ NoSetter == {<< "can", "dlc" >>, << "can", "dataLength" >>, << "canfd", "dlc" >>
              << "tecmpHeader", "dataFlags" >>, << "payloadType", "high" >>, << "payload", "high" >>}
 InRange(c, f, bits) ==
     /\ (f.n = "sampleDt" => bits \in {<< 0, 0 >>, << 0, 1 >>})
+    /\ (f.n = "segMask" => bits \in {<< 0, 0 >>, << 1, 1 >>})
     /\ (c = "packet" /\ f.n = "segmentType" => SubSeq(bits, 1, 6) = << 0, 0, 0, 0, 0, 0 >>)
 
 Background(c, kind) == IF kind = "zeros" THEN Zeros(Table[c].size + 2) ELSE Fill(Table[c].size + 2, 255)
